@@ -34,11 +34,20 @@ import (
 
 const module = "github.com/celestiaorg/go-header"
 
+// traced function names (observation only: the inserted call records name and non-context parameters)
+var traced = map[string]bool{}
+
 func main() {
 	repo := flag.String("repo", "/repo", "repository root")
 	out := flag.String("out", "", "output directory")
 	rt := flag.String("rt", "", "directory holding vrt/ vsync/ vatomic/ sources")
+	trace := flag.String("trace", "", "comma separated function/method names: a vrt.Trace(name, params...) call is inserted as their first statement")
 	flag.Parse()
+	for _, n := range strings.Split(*trace, ",") {
+		if n != "" {
+			traced[n] = true
+		}
+	}
 	if *out == "" || *rt == "" || flag.NArg() == 0 {
 		fmt.Fprintln(os.Stderr, "usage: instrument -repo R -out O -rt RT pkg...")
 		os.Exit(2)
@@ -176,6 +185,23 @@ func rewrite(path string, src []byte) ([]byte, bool, error) {
 		if fd, ok := d.(*ast.FuncDecl); ok && fd.Body != nil {
 			fd.Body = r.block(fd.Body)
 			r.terminate(fd.Type, fd.Body)
+			if traced[fd.Name.Name] {
+				args := []ast.Expr{&ast.BasicLit{Kind: token.STRING, Value: fmt.Sprintf("%q", fd.Name.Name)}}
+				for _, p := range fd.Type.Params.List {
+					if sel, ok := p.Type.(*ast.SelectorExpr); ok {
+						if x, ok := sel.X.(*ast.Ident); ok && x.Name == "context" {
+							continue
+						}
+					}
+					for _, n := range p.Names {
+						if n.Name != "_" {
+							args = append(args, ast.NewIdent(n.Name))
+						}
+					}
+				}
+				fd.Body.List = append([]ast.Stmt{&ast.ExprStmt{X: vrtCall("Trace", args...)}}, fd.Body.List...)
+				r.usedVrt, r.changed = true, true
+			}
 		}
 	}
 	if r.err != nil {
